@@ -2,6 +2,7 @@ mod big;
 mod checks;
 mod deploy;
 mod engine;
+mod fullhub;
 mod grid;
 mod helpers;
 mod refmath;
@@ -53,6 +54,8 @@ fn main() {
                 "C13" => checks::c13::run(&tier, seed),
                 "C14" => checks::c14::run(&tier, seed),
                 "C15" => checks::c15::run(&tier, seed),
+                "C16" => checks::c16::run(&tier, seed),
+                "C17" => checks::c17::run(&tier, seed),
                 "C20" => checks::c20::run(&tier, seed),
                 _ => {
                     eprintln!("unknown property {id}");
@@ -81,6 +84,8 @@ fn main() {
                 "C13" => checks::c13::replay(&doc),
                 "C14" => checks::c14::replay(&doc),
                 "C15" => checks::c15::replay(&doc),
+                "C16" => checks::c16::replay(&doc),
+                "C17" => checks::c17::replay(&doc),
                 "C20" => checks::c20::replay(&doc),
                 _ => {
                     eprintln!("unknown property in replay file");
